@@ -3,6 +3,7 @@ package main
 import (
 	"encoding/json"
 	"fmt"
+	"math/big"
 	"os"
 	"path/filepath"
 	"regexp"
@@ -278,6 +279,32 @@ func cmdCheck(id string, opts *RunOpts) int {
 	return rep.Exit
 }
 
+func modelScore(o *Oblig) float64 {
+	if o.Res.Status != "sat" {
+		return 1e18
+	}
+	sc := 0.0
+	for k, v := range o.Res.Model {
+		if strings.HasPrefix(k, "fpround!") || strings.HasPrefix(k, "wrap!") || strings.HasPrefix(k, "havoc!") {
+			sc += 1e6
+		}
+		if v.Op == "num" {
+			f, _ := new(big.Rat).Abs(v.Num).Float64()
+			if f > 1e15 {
+				sc += 1e3
+			}
+			if !v.Num.IsInt() {
+				sc += 10
+				if v.Num.Denom().BitLen() > 20 {
+					sc += 1e3
+				}
+			}
+			sc += float64(v.Num.Num().BitLen())
+		}
+	}
+	return sc
+}
+
 // ---------------------------------------------------------------------------
 
 type Report struct {
@@ -382,21 +409,37 @@ func buildReport(id string, w *World, opts *RunOpts, results []*FuncResult, all 
 		if n.Kind == "canary" {
 			continue // stale known finding, reported above
 		}
-		q := n.Failed[0]
-		// prefer a failed query that has a model
-		for _, c := range n.Failed {
-			if c.Res.Status == "sat" {
-				q = c
-				break
-			}
-		}
+		// order candidate models: few havoc symbols, small numbers first
+		cands := append([]*Oblig{}, n.Failed...)
+		sort.SliceStable(cands, func(i, j int) bool { return modelScore(cands[i]) < modelScore(cands[j]) })
+		q := cands[0]
+		n.Failed = cands
 		entry := map[string]interface{}{"obligation": n.Name, "failed_queries": len(n.Failed), "of": len(n.Queries), "status": q.Res.Status, "solver": q.Res.Solver}
 		undischarged = append(undischarged, entry)
 		violations++
 		path := writeReplay(opts, id, n, q, w)
 		suffix := ""
 		if !replayReproduced(path) {
-			suffix = " no-failing-input-found"
+			// try further failed queries that have a model
+			tried := 0
+			for _, c := range n.Failed {
+				if c == q || c.Res.Status != "sat" {
+					continue
+				}
+				tried++
+				if tried > 12 {
+					break
+				}
+				p2 := writeReplay(opts, id, n, c, w)
+				if replayReproduced(p2) {
+					q = c
+					break
+				}
+			}
+			if !replayReproduced(path) {
+				writeReplay(opts, id, n, q, w) // keep the first model in the file
+				suffix = " no-failing-input-found"
+			}
 		}
 		rep.lines = append(rep.lines, fmt.Sprintf("VIOLATION property=%s replay=%s%s", id, path, suffix))
 		rep.lines = append(rep.lines, fmt.Sprintf("  failed obligation: %s (%d of %d queries; first: %s by %s) shape[%s] %s", n.Name, len(n.Failed), len(n.Queries), q.Res.Status, q.Res.Solver, q.Shape, q.Where))
@@ -490,12 +533,12 @@ func buildReport(id string, w *World, opts *RunOpts, results []*FuncResult, all 
 	}
 	level := "proof"
 	cov := map[string]interface{}{
-		"obligations":                namedCount + extra.Count,
-		"discharged":                 namedDischarged + extra.Discharged,
-		"queries":                    nQueries,
-		"queries_discharged":         nDischarged,
+		"obligations":                  namedCount + extra.Count,
+		"discharged":                   namedDischarged + extra.Discharged,
+		"queries":                      nQueries,
+		"queries_discharged":           nDischarged,
 		"queries_closed_by_simplifier": nTrivial,
-		"checker_cmd":                fmt.Sprintf("bin/govc check %s --tier %s  (VC generation over go/ssa of %s; back ends z3-new 5.1.0, z3 4.8.12, cvc5 1.0.3)", id, opts.Tier, opts.Repo),
+		"checker_cmd":                  fmt.Sprintf("bin/govc check %s --tier %s  (VC generation over go/ssa of %s; back ends z3-new 5.1.0, z3 4.8.12, cvc5 1.0.3)", id, opts.Tier, opts.Repo),
 		"trusted_base": []string{
 			"golang.org/x/tools v0.29.0 go/ssa builder and go/types",
 			"govc itself (symbolic executor, contract evaluator, stage-2 translator)",
